@@ -88,7 +88,7 @@ func applyMut(m *fix.Message, sc *SerCase) (string, error) {
 		var leaves []build.LeafRef
 		build.Leaves(m.Header().Items(), c.Tpl.Header, c.Header, false, false, &leaves)
 		build.Leaves(m.Body(), c.Tpl.Body, c.Body, false, false, &leaves)
-		build.Leaves(m.Trailer().Items(), c.Tpl.Trailer, c.Trailer, false, false, &leaves)
+		build.Leaves(build.TrailerItems(m, &c.Tpl), c.Tpl.Trailer, c.Trailer, false, false, &leaves)
 		if len(leaves) == 0 {
 			return "none", nil
 		}
